@@ -324,6 +324,34 @@ static void flush_bitpack(carquet_rle_encoder_t* enc) {
     enc->bitpack_total = 0;
 }
 
+/*
+ * A run of >= 8 equal values ends. A partially filled literal group must not be
+ * zero-padded here (the padding would be decoded as extra values in the middle
+ * of the stream): first move values of the run into the group until it holds 8
+ * and write it, then write the rest of the run as RLE if it is still >= 8,
+ * otherwise keep it as the start of the next literal group.
+ */
+static void end_long_run(carquet_rle_encoder_t* enc) {
+    if (enc->bitpack_count > 0) {
+        while (enc->bitpack_count < 8) {
+            enc->bitpack_buffer[enc->bitpack_count++] = enc->prev_value;
+            enc->bitpack_total++;
+            enc->repeat_count--;
+        }
+        flush_bitpack(enc);
+
+        if (enc->repeat_count < 8) {
+            for (int64_t i = 0; i < enc->repeat_count; i++) {
+                enc->bitpack_buffer[enc->bitpack_count++] = enc->prev_value;
+                enc->bitpack_total++;
+            }
+            enc->repeat_count = 0;
+            return;
+        }
+    }
+    flush_rle(enc);
+}
+
 void carquet_rle_encoder_init(
     carquet_rle_encoder_t* enc,
     carquet_buffer_t* buffer,
@@ -357,9 +385,8 @@ carquet_status_t carquet_rle_encoder_put(
 
     /* Value changed */
     if (enc->repeat_count >= 8) {
-        /* Flush as RLE */
-        flush_bitpack(enc);  /* Flush any pending bit-pack */
-        flush_rle(enc);
+        /* Complete a pending literal group from the run, then flush as RLE */
+        end_long_run(enc);
     } else {
         /* Add to bit-pack buffer */
         for (int64_t i = 0; i < enc->repeat_count; i++) {
@@ -396,8 +423,11 @@ carquet_status_t carquet_rle_encoder_flush(carquet_rle_encoder_t* enc) {
     }
 
     if (enc->repeat_count >= 8) {
-        flush_bitpack(enc);
-        flush_rle(enc);
+        end_long_run(enc);
+        /* A short remainder of the run may now sit in the literal buffer */
+        if (enc->bitpack_count > 0) {
+            flush_bitpack(enc);
+        }
     } else if (enc->repeat_count > 0) {
         for (int64_t i = 0; i < enc->repeat_count; i++) {
             enc->bitpack_buffer[enc->bitpack_count++] = enc->prev_value;
